@@ -401,11 +401,11 @@ func (st *States) switchState(sctx switchContext) error {
 
 	l := st.stateSwitchContextLog(nsctx, current)
 
-	st.args.WhenStateSwitchedFunc(nsctx.next())
-
 	cdefer, ndefer, err := st.exitAndEnter(nsctx, current)
 
 	st.stateLock.Unlock()
+
+	st.args.WhenStateSwitchedFunc(nsctx.next())
 
 	if err != nil {
 		switch {
